@@ -589,6 +589,29 @@ def multiref_referrer_stays(ctx):
                  {"stream": "multiref-referrer"}, got, want)
 
 
+def multiref_attributes_side_by_side(ctx):
+    """The attributes of the referenced element are ADDED to the referring node: an attribute the referrer already has
+    stays, also when the one that arrives shares its local name (another namespace) or is bound by a prefix only the
+    referenced element declares."""
+    from suds.bindings.multiref import MultiRef
+    from suds.sax.parser import Parser
+    doc = ('<e:Envelope xmlns:e="%s" xmlns:enc="%s"><e:Body><w xmlns:k="urn:k"><a type="own" k:mark="m" href="#r"/>'
+           '<b href="#r" type="own-b"/></w><multiRef id="r" enc:root="0" xmlns:q="urn:q" q:type="arrived" q:other="o" '
+           'plain="p"><v>1</v></multiRef></e:Body></e:Envelope>' % (xmlread.ENV11, xmlread.ENC)).encode()
+    body = Parser().parse(string=doc).root().getChild("Body")
+    ctx.case(("multiref-attributes",), True)
+    MultiRef().process(body)
+    w_ = body.children[0] if body.children else None
+    got = None if w_ is None else [sorted([a.namespace()[1] or "", a.name, str(a.value)] for a in c.attributes
+                                          if a.name not in ("root",)) for c in w_.children]
+    want = [sorted([["", "type", "own"], ["urn:k", "mark", "m"], ["urn:q", "type", "arrived"], ["urn:q", "other", "o"],
+                    ["", "plain", "p"]]),
+            sorted([["", "type", "own-b"], ["urn:q", "type", "arrived"], ["urn:q", "other", "o"], ["", "plain", "p"]])]
+    if got != want:
+        ctx.fail("resolving a reference changed the referring node itself (name / namespace) or lost its content",
+                 {"stream": "multiref-attributes", "doc": doc.decode()}, got, want)
+
+
 def multiref_forward_chains(ctx):
     """The replacement is applied to every referring node - also to the ones that arrive inside copied content: a
     referrer whose target comes later in the body and itself refers on (the usual Axis layout: result first, then
@@ -814,6 +837,7 @@ def run(ctx):
     imported_schema_tree(ctx)
     multiref_referrer_stays(ctx)
     multiref_forward_chains(ctx)
+    multiref_attributes_side_by_side(ctx)
     document_lookups(ctx)
     if runs:
         ctx.sample({"forest": runs[0]["forest"], "ops": runs[0]["ops"][:4]})
